@@ -471,6 +471,46 @@ struct TemplateCore {
                                         ++s_tag;
                                     }
 
+                                    if (!skip && !is_child) {
+                                        // Every sub tag has to sit inside the value of 'true' or of 'false'.
+                                        const SizeT t_start = (tag.Offset + tag.TrueOffset);
+                                        const SizeT t_end   = (t_start + tag.TrueLength);
+                                        const SizeT f_start = (tag.Offset + tag.FalseOffset);
+                                        const SizeT f_end   = (f_start + tag.FalseLength);
+
+                                        for (s_tag = tag.SubTags.First(); s_tag < s_tag_end; ++s_tag) {
+                                            SizeT s_start{1};
+                                            SizeT s_end{0}; // Any other kind of tag is not allowed here.
+
+                                            switch (s_tag->GetType()) {
+                                                case TagType::Math: {
+                                                    s_start = s_tag->GetMathTag().Offset;
+                                                    s_end   = s_tag->GetMathTag().EndOffset;
+                                                    break;
+                                                }
+
+                                                case TagType::Variable:
+                                                case TagType::RawVariable: {
+                                                    const VariableTag &var = s_tag->GetVariableTag();
+                                                    s_start = (var.Offset - TagPatterns::VariablePrefixLength);
+                                                    s_end = (var.Offset + var.Length + TagPatterns::InLineSuffixLength);
+                                                    break;
+                                                }
+
+                                                default: {
+                                                }
+                                            }
+
+                                            if ((s_end < s_start) ||
+                                                !(((s_start >= t_start) && (s_end <= t_end)) ||
+                                                  ((s_start >= f_start) && (s_end <= f_end)))) {
+                                                storage->Drop(SizeT{1});
+                                                skip = true;
+                                                break;
+                                            }
+                                        }
+                                    }
+
                                     if (!skip) {
                                         if (tag.TrueOffset < tag.FalseOffset) {
                                             tag.FalseTagsStartID = SizeT8(id);
